@@ -154,3 +154,47 @@ func VerifC03Both() {
 	vapi.Assert(len(gotC) <= 2 && vapi.BytesEq(gotC, B[:len(gotC)]), "C03: each side reads a prefix of the other's bytes")
 	vapi.Reach("both-end")
 }
+
+// VerifC03WriteClose: Write(T) || Close() on one stream, every interleaving within the preemption bound. A write that
+// reports success was numbered before the closing frame (so the peer, which applies frames in sequence order,
+// delivers it before the end: no lost tail); a write that lost the race fails; after Close has returned writes fail.
+func VerifC03WriteClose() {
+	vapi.SetPreemptBound(vapi.Param("preempt", 2))
+	vapi.RandZero(true)
+	c13Fine()
+	key := c04Key()
+	sesh, a, _ := c14Session(0, key, 14+255+4, false)
+	st, _ := sesh.OpenStream()
+	st.Write(vapi.Bytes("H", 2))
+	T := vapi.Bytes("T", 3)
+	var errW error
+	var nW int
+	doneW, doneC := false, false
+	go func() { nW, errW = st.Write(T); doneW = true }()
+	go func() { st.Close(); doneC = true }()
+	vapi.Quiesce()
+	vapi.Assert(doneW && doneC, "C03: Write and Close return")
+	fs := c13Decode(key, a)
+	closeAt, tailAt := -1, -1
+	for i, f := range fs {
+		if f.closing != 0 {
+			closeAt = i
+		} else if len(f.payload) == 3 {
+			tailAt = i
+			vapi.Assert(vapi.BytesEq(f.payload, T), "C03: the frame carries the written bytes")
+		}
+	}
+	vapi.Assert(closeAt >= 0, "C03: the closing notice is sent")
+	if errW == nil {
+		vapi.Assert(nW == 3 && tailAt >= 0, "C03: a successful write was sent")
+		vapi.Assert(tailAt >= 0 && closeAt >= 0 && fs[tailAt].seq < fs[closeAt].seq, "C03: a write that reported success is numbered before the closing notice (no lost tail)")
+	} else {
+		vapi.Assert(tailAt < 0, "C03: a refused write sends nothing")
+	}
+	for i, f := range fs {
+		vapi.Assert(i == closeAt || closeAt < 0 || f.seq < fs[closeAt].seq, "C03: nothing is numbered after the closing notice")
+	}
+	_, err := st.Write([]byte{1})
+	vapi.Assert(err == ErrBrokenStream, "C03: writes fail on a stream closed locally")
+	vapi.Reach("writeclose-end")
+}
